@@ -97,8 +97,13 @@ def shape_to_tla(s):
     return "[targets |-> [%s], sources |-> %s]" % (ts, tla_seq(s["sources"]))
 
 
+# which variant of runTarget.Evaluate the design spec models: "started" after the repair that records
+# "being run" before the body (defect 24), "none" before it
+MARK = os.environ.get("VERIF_BUILD_MARK", "started")
+
+
 def cfg_to_tla(name, stamp):
-    c = "[shape |-> %s, stamp |-> \"%s\"" % (shape_to_tla(SHAPES[name]), stamp)
+    c = "[shape |-> %s, stamp |-> \"%s\", mark |-> \"%s\"" % (shape_to_tla(SHAPES[name]), stamp, MARK)
     if name in RESHAPE:
         c += ", shape2 |-> %s" % shape_to_tla(RESHAPE[name])
     return c + "]"
@@ -218,6 +223,10 @@ def history_to_case(idx, h, rnd):
             steps.append({"op": "edit_env", "t": o["t"]})
         elif o["op"] == "edit_src":
             steps.append({"op": "edit_src", "s": o["s"]})
+        elif o["op"] == "revert_env":
+            steps.append({"op": "revert_env", "t": o["t"]})
+        elif o["op"] == "revert_src":
+            steps.append({"op": "revert_src", "s": o["s"]})
         elif o["op"] == "delete":
             steps.append({"op": "delete", "s": o["s"]})
         elif o["op"] == "nonedit":
@@ -443,6 +452,16 @@ def harness_cases(tier, sd):
                     if not quick:
                         add("crash", name, [B(top, crash=cr), B(top), B(top)])
                         add("crash", name, [B(top), es, B(top, crash=cr), es, B(top, fail=[sorted(shape["targets"])[0]]), B(top), B(top)])
+    # (c') an edit, a death in the middle of a body that has already written products, the edit undone
+    for name in ["generated", "gendep"]:
+        shape = SHAPES[name]
+        top = roots_of(shape)[0]
+        gen = sorted(n for n, t in shape["targets"].items() if t["gens"])[0]
+        s0 = [s for s in shape["sources"] if not any(s in t["gens"] for t in shape["targets"].values())][0]
+        for point in ("body.mid", "eval.after", "save.created"):
+            cr = {"point": point, "label": gen, "hit": 1}
+            add("crash", name, [B(top), {"op": "edit_src", "s": s0}, B(top, crash=cr), {"op": "revert_src", "s": s0}, B(top), B(top)])
+            add("crash", name, [B(top), {"op": "edit_env", "t": gen}, B(top, crash=cr), {"op": "revert_env", "t": gen}, B(top), B(top)])
     # (d) random histories
     for i in range(40 if quick else 600):
         name = rnd.choice([n for n in SHAPES if n != "unwire"])    # (its from-scratch builds are not comparable)
